@@ -19,12 +19,13 @@ import M17.Spec.Tx
 namespace M17.C01F
 open M17.Vit M17.C01 M17.Cond M17.Punct M17.Dec
 
-/-- the soft value `r` carries bit `b`: correct sign (positive = 1), magnitude 1..7 -/
-def Carries (b : Bool) (r : Int) : Prop := if b then 1 ≤ r ∧ r ≤ 7 else -7 ≤ r ∧ r ≤ -1
+/-- the soft value `r` carries bit `b`: correct sign (positive = 1), magnitude `lo`..7 -/
+def Carries (lo : Int) (b : Bool) (r : Int) : Prop := if b then lo ≤ r ∧ r ≤ 7 else -7 ≤ r ∧ r ≤ -lo
 
-/-- `r` is a clean soft image of the bit sequence `bits` (any per-position magnitudes 1..7) -/
-def SoftImage (bits : List Bool) (r : List Int) : Prop :=
-  r.length = bits.length ∧ ∀ i, i < bits.length → Carries (bits.getD i false) (r.getD i 0)
+/-- `r` is a clean soft image of the bit sequence `bits`: every position has the right sign and any magnitude in
+    `lo`..7 (`lo = 1`: everything the 4-bit soft demapper can emit for a correct decision; `lo = 7`: full confidence) -/
+def SoftImage (lo : Int) (bits : List Bool) (r : List Int) : Prop :=
+  r.length = bits.length ∧ ∀ i, i < bits.length → Carries lo (bits.getD i false) (r.getD i 0)
 
 /-! ## stage 1 — the receiver's soft de-randomizer undoes the specification's randomizer -/
 
@@ -47,8 +48,8 @@ theorem randSoft_getD (r : List Int) (i : Nat) (hi : i < r.length) :
 
 theorem randSoft_length (r : List Int) : (randSoft r).length = r.length := by unfold randSoft; simp
 
-theorem rand_image (bits : List Bool) (r : List Int) (h : bits.length = 368) (hr : SoftImage (Spec.Tx.rnd bits) r) :
-    SoftImage bits (randSoft r) := by
+theorem rand_image (lo : Int) (hlo : 1 ≤ lo) (bits : List Bool) (r : List Int) (h : bits.length = 368)
+    (hr : SoftImage lo (Spec.Tx.rnd bits) r) : SoftImage lo bits (randSoft r) := by
   obtain ⟨hl, hp⟩ := hr
   rw [rnd_length bits h] at hl hp
   refine ⟨by rw [randSoft_length, hl, h], ?_⟩
@@ -78,8 +79,9 @@ theorem spec_index_perm : Bij Spec.ileaveIndex C10.invIndex 368 := by
 theorem ileave_length (bits : List Bool) : (Spec.Tx.ileave bits).length = 368 := by
   rw [ileave_eq_scatter]; exact scatter_length _ _ _ _
 
-theorem deinterleave_image (bits : List Bool) (r : List Int) (h : bits.length = 368)
-    (hr : SoftImage (Spec.Tx.ileave bits) r) : SoftImage bits (deinterleaveSoft r) := by
+attribute [local irreducible] Spec.Tx.ileave in
+theorem deinterleave_image (lo : Int) (bits : List Bool) (r : List Int) (h : bits.length = 368)
+    (hr : SoftImage lo (Spec.Tx.ileave bits) r) : SoftImage lo bits (deinterleaveSoft r) := by
   obtain ⟨hl, hp⟩ := hr
   rw [ileave_length] at hl hp
   unfold deinterleaveSoft
@@ -90,12 +92,779 @@ theorem deinterleave_image (bits : List Bool) (r : List Int) (h : bits.length = 
   rw [gather_getD _ _ _ _ _ hi]
   have hb : index i < 368 ∧ C10.invIndex (index i) = i := C10.index_perm.1 i hi
   have hb1 := hb.1
-  have := hp _ hb1
   have hs : (Spec.Tx.ileave bits).getD (index i) false = bits.getD i false := by
     rw [ileave_eq_scatter, C10.index_eq_spec,
       scatter_getD Spec.ileaveIndex C10.invIndex 368 spec_index_perm false bits _ (by rw [← C10.index_eq_spec]; exact hb.1)]
     rw [← C10.index_eq_spec, hb.2]
-  rw [hs] at this
-  exact this
+  have h2 := hp (index i) hb1
+  rw [hs] at h2
+  exact h2
+
+/-- stages 1+2: what `Dec.step` computes first (`deinterleaveSoft (randSoft frame)`) is a clean soft image of the
+    368 bits that went into the specification's interleaver -/
+theorem condition_image (lo : Int) (hlo : 1 ≤ lo) (bits : List Bool) (frame : List Int) (h : bits.length = 368)
+    (hr : SoftImage lo (Spec.Tx.rnd (Spec.Tx.ileave bits)) frame) :
+    SoftImage lo bits (deinterleaveSoft (randSoft frame)) :=
+  deinterleave_image lo bits _ h (rand_image lo hlo _ _ (ileave_length bits) hr)
+
+/-! ## stage 3 — the specification's puncturing (a filter on positions) is the code's puncturing loop -/
+
+theorem succ_mod (k len : Nat) (h : 0 < len) :
+    (k + 1) % len = if k % len + 1 = len then 0 else k % len + 1 := by
+  have hk := Nat.div_add_mod k len
+  have hr := Nat.mod_lt k h
+  by_cases hc : k % len + 1 = len
+  · rw [if_pos hc]
+    have : k + 1 = len * (k / len + 1) := by rw [Nat.mul_add, Nat.mul_one]; omega
+    rw [this, Nat.mul_mod_right]
+  · rw [if_neg hc]
+    have : k + 1 = len * (k / len) + (k % len + 1) := by omega
+    rw [this, Nat.mul_add_mod, Nat.mod_eq_of_lt (by omega)]
+
+theorem filter_eq_keptSeq (p : List Nat) (hp : 0 < p.length) (xs : List α) : ∀ (k : Nat),
+    (((xs.zipIdx k).filter fun (x : α × Nat) => p.getD (x.2 % p.length) 0 != 0).map Prod.fst) = C11.keptSeq p (k % p.length) xs := by
+  induction xs with
+  | nil => intro k; simp [C11.keptSeq]
+  | cons x xs ih =>
+    intro k
+    simp only [List.zipIdx_cons, C11.keptSeq, List.filter_cons]
+    have hn : nextP p (k % p.length) = (k + 1) % p.length := by unfold nextP; rw [succ_mod k _ hp]
+    rw [hn]
+    unfold pAt
+    split
+    · simp only [List.map_cons, ih (k + 1)]
+    · exact ih (k + 1)
+
+theorem punct_eq (p : List Nat) (hp : 0 < p.length) (bits : List Bool) (n : Nat) :
+    Spec.Tx.punct p bits n = (C11.keptSeq p 0 bits).take n := by
+  unfold Spec.Tx.punct
+  have := filter_eq_keptSeq p hp bits 0
+  rw [Nat.zero_mod] at this
+  rw [← this]
+
+/-! ## stage 4 — de-puncturing the soft image of a punctured code word gives a vector consistent with the code word -/
+
+/-- coded bit `i` is received: kept by the matrix and inside the frame -/
+def recv (p : List Nat) (out i : Nat) : Bool := pAt p (C11.pIdx p 0 i) && decide (C11.rank p 0 i < out)
+
+theorem depunct_getD (lo : Int) (p : List Nat) (c : List Bool) (r : List Int) (out n : Nat) (hn : c.length = n) (hlen : r.length = out)
+    (hr : SoftImage lo ((C11.keptSeq p 0 c).take out) r) (i : Nat) (hi : i < n) :
+    (recv p out i = false → (depunctureGo p 0 r n).getD i 0 = 0) ∧
+    (recv p out i = true → Carries lo (c.getD i false) ((depunctureGo p 0 r n).getD i 0)) := by
+  rw [C11.depuncture_spec p n 0 r i hi]
+  unfold recv
+  by_cases hk : pAt p (C11.pIdx p 0 i) = true
+  · simp only [hk, if_true, Bool.true_and, decide_eq_false_iff_not, decide_eq_true_eq]
+    constructor
+    · intro h
+      simp [List.getD_eq_getElem?_getD, List.getElem?_eq_none (by omega : r.length ≤ C11.rank p 0 i)]
+    · intro h
+      obtain ⟨hl, hpt⟩ := hr
+      have h1 := hpt (C11.rank p 0 i) (by omega)
+      have h2 := C11.keptSeq_rank p false c 0 i (by omega) hk
+      have h3 : ((C11.keptSeq p 0 c).take out).getD (C11.rank p 0 i) false = c.getD i false := by
+        rw [← h2]; simp [List.getD_eq_getElem?_getD, h]
+      rw [h3] at h1
+      exact h1
+  · simp only [hk]
+    simp
+
+/-- every trellis step of the geometry receives at least one of its two coded bits -/
+def noDouble (p : List Nat) (n out : Nat) : Bool :=
+  (List.range (n / 2)).all fun t => recv p out (2 * t) || recv p out (2 * t + 1)
+
+/-- LSF (P1, 488 → 368), stream (P2, 296 → 272), packet (P3, 420 → 368), BERT (P2, 402 → 368; the 369th kept bit is
+    not transmitted) -/
+theorem geometries_noDouble :
+    noDouble Gen.p1 488 368 = true ∧ noDouble Gen.p2 296 272 = true ∧
+    noDouble Gen.p3 420 368 = true ∧ noDouble Gen.p2 402 368 = true := by decide +kernel
+
+theorem pairs_length : ∀ (d : List Int), (pairs d).length = d.length / 2
+  | [] => rfl
+  | [_] => by simp [pairs]
+  | a :: b :: rest => by simp only [pairs, List.length_cons, pairs_length rest]; omega
+
+theorem flat_pairs : ∀ (d : List Int), d.length % 2 = 0 → ((pairs d).flatMap fun p => [p.1, p.2]) = d
+  | [], _ => rfl
+  | [_], h => by simp at h
+  | a :: b :: rest, h => by
+    simp only [pairs, List.flatMap_cons, List.cons_append, List.nil_append]
+    rw [flat_pairs rest (by simp only [List.length_cons] at h; omega)]
+
+theorem carries_okSign (lo : Int) (hlo : 1 ≤ lo) (b : Bool) (x : Int) (h : Carries lo b x) : okSign 7 b x ∧ x ≠ 0 := by
+  unfold Carries at h; unfold okSign
+  cases b <;> simp at h ⊢ <;> omega
+
+/-- pointwise sign-consistency and "no step loses both values" give the recursive `Consistent` of `M17.C01` -/
+theorem consistent_of_pointwise : ∀ (cs : List (Bool × Bool)) (d : List Int), d.length = 2 * cs.length →
+    (∀ t, t < cs.length →
+      okSign 7 (cs.getD t (false, false)).1 (d.getD (2 * t) 0) ∧ okSign 7 (cs.getD t (false, false)).2 (d.getD (2 * t + 1) 0) ∧
+      ¬ (d.getD (2 * t) 0 = 0 ∧ d.getD (2 * t + 1) 0 = 0)) →
+    Consistent 7 (pairs d) cs := by
+  intro cs
+  induction cs with
+  | nil => intro d hd _; cases d with
+    | nil => simp [pairs, Consistent]
+    | cons _ _ => simp at hd
+  | cons c cs ih =>
+    intro d hd h
+    match d, hd with
+    | a :: b :: rest, hd =>
+      simp only [pairs, Consistent]
+      have h0 := h 0 (by simp)
+      simp only [List.getD_cons_zero, Nat.mul_zero, Nat.zero_add, List.getD_cons_succ] at h0
+      refine ⟨h0.1, h0.2.1, h0.2.2, ih rest (by simp only [List.length_cons] at hd; omega) ?_⟩
+      intro t ht
+      have := h (t + 1) (by simp; omega)
+      have e1 : 2 * (t + 1) = (2 * t + 1) + 1 := by omega
+      rw [e1] at this
+      simpa only [List.getD_cons_succ] using this
+
+theorem flat_getD (cs : List (Bool × Bool)) : ∀ (t : Nat), t < cs.length →
+    (cs.flatMap fun p => [p.1, p.2]).getD (2 * t) false = (cs.getD t (false, false)).1 ∧
+    (cs.flatMap fun p => [p.1, p.2]).getD (2 * t + 1) false = (cs.getD t (false, false)).2 := by
+  induction cs with
+  | nil => intro t ht; simp at ht
+  | cons c cs ih =>
+    intro t ht
+    cases t with
+    | zero => simp
+    | succ t =>
+      have := ih t (by simpa using ht)
+      have e1 : 2 * (t + 1) = (2 * t + 1) + 1 := by omega
+      rw [e1]
+      simpa only [List.flatMap_cons, List.cons_append, List.nil_append, List.getD_cons_succ] using this
+
+theorem flatMap_pair_length (cs : List (Bool × Bool)) : (cs.flatMap fun p => [p.1, p.2]).length = 2 * cs.length := by
+  induction cs with
+  | nil => rfl
+  | cons c cs ih => simp only [List.flatMap_cons, List.length_append, List.length_cons, List.length_nil, ih]; omega
+
+theorem convFrom_length : ∀ (u : List Bool) (s : Nat), (Spec.convFrom s u).length = u.length
+  | [], _ => rfl
+  | b :: u, s => by simp only [Spec.convFrom, List.length_cons, convFrom_length u]
+
+/-- **de-punctured clean soft image of a punctured code word is `Consistent` with the code word** -/
+theorem depunct_consistent (lo : Int) (hlo : 1 ≤ lo) (p : List Nat) (v : List Bool) (r : List Int) (out n : Nat)
+    (hn : n = 2 * v.length) (hlen : r.length = out) (hnd : noDouble p n out = true)
+    (hr : SoftImage lo ((C11.keptSeq p 0 ((Spec.convFrom 0 v).flatMap fun p => [p.1, p.2])).take out) r) :
+    Consistent 7 (pairs (depunctureGo p 0 r n)) (Spec.convFrom 0 v) := by
+  have hcl : ((Spec.convFrom 0 v).flatMap fun p => [p.1, p.2]).length = n := by
+    rw [flatMap_pair_length, convFrom_length, hn]
+  apply consistent_of_pointwise
+  · rw [C11.depunctureGo_length, convFrom_length, hn]
+  · intro t ht
+    rw [convFrom_length] at ht
+    have g0 := depunct_getD lo p _ r out n hcl hlen hr (2 * t) (by omega)
+    have g1 := depunct_getD lo p _ r out n hcl hlen hr (2 * t + 1) (by omega)
+    obtain ⟨f0, f1⟩ := flat_getD (Spec.convFrom 0 v) t (by rw [convFrom_length]; exact ht)
+    rw [f0] at g0
+    rw [f1] at g1
+    have hnd' := M17.Bits.all_range hnd (i := t) (by omega)
+    simp only [Bool.or_eq_true] at hnd'
+    refine ⟨?_, ?_, ?_⟩
+    · cases h : recv p out (2 * t)
+      · rw [g0.1 h]; left; rfl
+      · exact (carries_okSign lo hlo _ _ (g0.2 h)).1
+    · cases h : recv p out (2 * t + 1)
+      · rw [g1.1 h]; left; rfl
+      · exact (carries_okSign lo hlo _ _ (g1.2 h)).1
+    · intro hz
+      rcases hnd' with h | h
+      · exact (carries_okSign lo hlo _ _ (g0.2 h)).2 hz.1
+      · exact (carries_okSign lo hlo _ _ (g1.2 h)).2 hz.2
+
+/-! ## stage 5 — the decoder's FEC chain (`depuncture` → `Viterbi::decode` → `to_byte_array`) on a clean frame -/
+
+theorem limit4 : limit 4 = 7 := by decide
+
+/-- the slack of the received vector: Σ (7 − |r|) over the received (non-erased) positions of the de-punctured block -/
+def slack (p : List Nat) (r : List Int) (n : Nat) : Nat := baseCost 7 (pairs (depunctureGo p 0 r n))
+
+/-- **FEC chain, clean frame**: for every puncture matrix / geometry that never erases a whole trellis step, every message
+    `u`, and every clean soft image `r` (per-position magnitudes `lo`..7) of the punctured specification code word, the
+    decoder's chain returns exactly `u`, packed MSB-first, with cost `round(slack/7)` -/
+theorem fec_clean (lo : Int) (hlo : 1 ≤ lo) (p : List Nat) (hp : 0 < p.length) (u : List Bool) (r : List Int) (out n : Nat)
+    (hn : n = 2 * (u.length + 4)) (hlen : r.length = out) (hnd : noDouble p n out = true)
+    (hsmall : 318 * (u.length + 4) < 2 ^ 30 - 1)
+    (hr : SoftImage lo (Spec.Tx.punct p (Spec.convEncode u) out) r) :
+    fec p r n u.length = (roundDiv (slack p r n) 7, u, Bytes.pack u) := by
+  unfold fec slack
+  rw [punct_eq p hp] at hr
+  unfold Spec.convEncode at hr
+  have hv : (u ++ [false, false, false, false]).length = u.length + 4 := by simp
+  have hc := depunct_consistent lo hlo p (u ++ [false, false, false, false]) r out n (by rw [hv]; exact hn) hlen hnd hr
+  have hdl : (depunctureGo p 0 r n).length = n := C11.depunctureGo_length p n 0 r
+  have hpl : (pairs (depunctureGo p 0 r n)).length = u.length + 4 := by rw [pairs_length, hdl, hn]; omega
+  have hflat := flat_pairs (depunctureGo p 0 r n) (by rw [hdl, hn]; omega)
+  have hv := viterbi_clean_exact 4 (by decide) (pairs (depunctureGo p 0 r n)) (u ++ [false, false, false, false]) u.length
+    (by rw [limit4]; exact hc) (by rw [hpl]; exact hsmall)
+  rw [hflat, limit4] at hv
+  simp only [vitLLR, hv, List.take_left']
+
+/-! ### cost 0 at full confidence -/
+
+theorem base1_zero_of_full (x : Int) (h : x = 0 ∨ x = 7 ∨ x = -7) : base1 7 x = 0 := by
+  unfold base1; rcases h with h | h | h <;> simp [h]
+
+theorem baseCost_zero : ∀ (d : List Int), (∀ x ∈ d, x = 0 ∨ x = 7 ∨ x = -7) → baseCost 7 (pairs d) = 0
+  | [], _ => rfl
+  | [_], _ => by simp [pairs, baseCost]
+  | a :: b :: rest, h => by
+    have ih := baseCost_zero rest (fun x hx => h x (by simp [hx]))
+    unfold baseCost at ih ⊢
+    simp only [pairs, List.map_cons, List.sum_cons, ih]
+    rw [base1_zero_of_full a (h a (by simp)), base1_zero_of_full b (h b (by simp))]
+
+theorem depunct_mem (p : List Nat) : ∀ (n pi : Nat) (r : List Int) (x : Int), x ∈ depunctureGo p pi r n → x = 0 ∨ x ∈ r := by
+  intro n
+  induction n with
+  | zero => intro pi r x h; simp [depunctureGo] at h
+  | succ n ih =>
+    intro pi r x h
+    simp only [depunctureGo] at h
+    split at h
+    · rcases List.mem_cons.mp h with h | h
+      · left; exact h
+      · exact ih _ _ _ h
+    · cases r with
+      | nil =>
+        rcases List.mem_cons.mp h with h | h
+        · left; exact h
+        · exact ih _ _ _ h
+      | cons y r =>
+        rcases List.mem_cons.mp h with h | h
+        · right; simp [h]
+        · rcases ih _ _ _ h with h | h
+          · left; exact h
+          · right; simp [h]
+
+theorem full_mem (bits : List Bool) (r : List Int) (h : SoftImage 7 bits r) : ∀ x ∈ r, x = 7 ∨ x = -7 := by
+  intro x hx
+  obtain ⟨i, hi, rfl⟩ := List.getElem_of_mem hx
+  have := h.2 i (by rw [← h.1]; exact hi)
+  have e : r.getD i 0 = r[i] := by simp [List.getD_eq_getElem?_getD, hi]
+  rw [e] at this
+  unfold Carries at this
+  split at this <;> omega
+
+/-- at full confidence (every soft value ±7) the slack, hence the reported cost, is 0 -/
+theorem slack_zero_of_full (p : List Nat) (bits : List Bool) (r : List Int) (n : Nat) (h : SoftImage 7 bits r) : slack p r n = 0 := by
+  unfold slack
+  apply baseCost_zero
+  intro x hx
+  rcases depunct_mem p n 0 r x hx with h0 | h1
+  · left; exact h0
+  · right; exact full_mem bits r h x h1
+
+theorem roundDiv_zero : roundDiv 0 7 = 0 := by decide
+
+/-! ## stage 6 — byte packing: `to_byte_array` undoes the specification's MSB-first bit expansion -/
+
+def byteOfOK : Bool := (List.range 256).all fun b => Bytes.byteOf (Spec.byteBits b) == b
+theorem byteOf_ok : byteOfOK = true := by decide +kernel
+
+theorem byteOf_byteBits (b : Nat) (hb : b < 256) : Bytes.byteOf (Spec.byteBits b) = b := by
+  have := M17.Bits.all_range byteOf_ok hb
+  simpa using this
+
+theorem byteBits_length (b : Nat) : (Spec.byteBits b).length = 8 := by unfold Spec.byteBits; simp
+
+theorem bitsOfBytes_length (bs : List Nat) : (Spec.Tx.bitsOfBytes bs).length = 8 * bs.length := by
+  unfold Spec.Tx.bitsOfBytes
+  induction bs with
+  | nil => rfl
+  | cons b bs ih => simp only [List.flatMap_cons, List.length_append, byteBits_length, ih, List.length_cons]; omega
+
+theorem chunk_bitsOfBytes (bs : List Nat) : ∀ (k : Nat), k < bs.length →
+    ((Spec.Tx.bitsOfBytes bs).drop (8 * k)).take 8 = Spec.byteBits (bs.getD k 0) := by
+  unfold Spec.Tx.bitsOfBytes
+  induction bs with
+  | nil => intro k hk; simp at hk
+  | cons b bs ih =>
+    intro k hk
+    cases k with
+    | zero =>
+      simp only [List.flatMap_cons, Nat.mul_zero, List.drop_zero, List.getD_cons_zero]
+      rw [List.take_append_of_le_length (by rw [byteBits_length]; omega), List.take_of_length_le (by rw [byteBits_length]; omega)]
+    | succ k =>
+      have e : 8 * (k + 1) = (Spec.byteBits b).length + 8 * k := by rw [byteBits_length]; omega
+      simp only [List.flatMap_cons, List.getD_cons_succ]
+      rw [e, List.drop_append, List.drop_of_length_le (by omega), Nat.add_sub_cancel_left, List.nil_append]
+      exact ih k (by simpa using hk)
+
+/-- **packing the bits of a byte string gives the byte string back** -/
+theorem pack_bitsOfBytes (bs : List Nat) (hb : Bytes.AllBytes bs) : Bytes.pack (Spec.Tx.bitsOfBytes bs) = bs := by
+  unfold Bytes.pack
+  rw [bitsOfBytes_length]
+  have e : (8 * bs.length + 7) / 8 = bs.length := by omega
+  rw [e]
+  apply List.ext_getElem (by simp)
+  intro i h1 h2
+  simp only [List.getElem_map, List.getElem_range]
+  rw [chunk_bitsOfBytes bs i h2]
+  have e2 : bs.getD i 0 = bs[i] := by simp [List.getD_eq_getElem?_getD, h2]
+  rw [e2]
+  exact byteOf_byteBits _ (hb _ (List.getElem_mem h2))
+
+/-! ## frame geometry: lengths -/
+
+theorem keptSeq_length_congr (p : List Nat) : ∀ (xs : List α) (ys : List β) (pi : Nat), xs.length = ys.length →
+    (C11.keptSeq p pi xs).length = (C11.keptSeq p pi ys).length := by
+  intro xs
+  induction xs with
+  | nil => intro ys pi h; cases ys with
+    | nil => rfl
+    | cons _ _ => simp at h
+  | cons x xs ih =>
+    intro ys pi h
+    cases ys with
+    | nil => simp at h
+    | cons y ys =>
+      simp only [C11.keptSeq]
+      have := ih ys (nextP p pi) (by simpa using h)
+      split <;> simp [this]
+
+theorem convEncode_length (u : List Bool) : (Spec.convEncode u).length = 2 * (u.length + 4) := by
+  unfold Spec.convEncode
+  rw [flatMap_pair_length, convFrom_length]; simp
+
+theorem punct_length (p : List Nat) (hp : 0 < p.length) (u : List Bool) (n out : Nat) (hn : 2 * (u.length + 4) = n)
+    (hk : out ≤ C11.keptCount p n) : (Spec.Tx.punct p (Spec.convEncode u) out).length = out := by
+  rw [punct_eq p hp, List.length_take]
+  unfold C11.keptCount at hk
+  rw [keptSeq_length_congr p (Spec.convEncode u) (List.range n) 0 (by rw [convEncode_length, hn]; simp)]
+  omega
+
+theorem softImage_length {lo : Int} {bits : List Bool} {r : List Int} (h : SoftImage lo bits r) : r.length = bits.length := h.1
+
+/-! ## the decoder's front end + FEC chain on a specification-encoded single-block frame -/
+
+/-- common core of LSF / packet / BERT frames: `fec p (deinterleave (derandomize frame)) n u.length` returns `u` -/
+theorem frame_fec (lo : Int) (hlo : 1 ≤ lo) (p : List Nat) (hp : 0 < p.length) (u : List Bool) (frame : List Int) (n : Nat)
+    (hn : n = 2 * (u.length + 4)) (hk : 368 ≤ C11.keptCount p n) (hnd : noDouble p n 368 = true)
+    (hsmall : 318 * (u.length + 4) < 2 ^ 30 - 1)
+    (hr : SoftImage lo (Spec.Tx.rnd (Spec.Tx.ileave (Spec.Tx.punct p (Spec.convEncode u) 368))) frame) :
+    fec p (deinterleaveSoft (randSoft frame)) n u.length =
+      (roundDiv (slack p (deinterleaveSoft (randSoft frame)) n) 7, u, Bytes.pack u) := by
+  have hpl := punct_length p hp u n 368 hn.symm hk
+  have hc := condition_image lo hlo _ frame hpl hr
+  exact fec_clean lo hlo p hp u _ 368 n hn (by rw [softImage_length hc, hpl]) hnd hsmall hc
+
+/-! ## the four frame kinds -/
+
+theorem p1_pos : 0 < Gen.p1.length := by decide
+theorem p2_pos : 0 < Gen.p2.length := by decide
+theorem p3_pos : 0 < Gen.p3.length := by decide
+
+/-- the reported cost of a clean frame: `round(slack/7)` of the de-randomized, de-interleaved, de-punctured block -/
+def cleanCost (p : List Nat) (frame : List Int) (n : Nat) : Nat :=
+  roundDiv (slack p (deinterleaveSoft (randSoft frame)) n) 7
+
+/-- **link setup frame**: for every 30-byte LSF, every decoder state and every clean soft image of the specification-encoded
+    frame, `operator()(LSF sync)` decodes exactly the 30 bytes; it reports them (callback, result OK, stored as the current
+    LSF, mode from the TYPE field) iff their CRC checks, and otherwise fails without a callback -/
+theorem lsf_roundtrip (lo : Int) (hlo : 1 ≤ lo) (σ : DState) (lsf : List Nat) (hl : lsf.length = 30) (hb : Bytes.AllBytes lsf)
+    (frame : List Int) (cb : Bool) (hr : SoftImage lo (Spec.Tx.lsfFrameBits lsf) frame) :
+    (Spec.crc16 lsf = 0 →
+      step σ .lsf frame cb =
+        { state := { mode := updateState .lsf (Spec.Tx.bitsOfBytes lsf), mask := σ.mask, lsfBuf := lsf },
+          calls := [⟨.lsf, lsf, cleanCost Gen.p1 frame 488⟩], result := .ok, cost := some (cleanCost Gen.p1 frame 488) }) ∧
+    (Spec.crc16 lsf ≠ 0 →
+      step σ .lsf frame cb =
+        { state := { mode := .lsf, mask := 0, lsfBuf := List.replicate 30 0 },
+          calls := [], result := .fail, cost := some (cleanCost Gen.p1 frame 488) }) := by
+  unfold Spec.Tx.lsfFrameBits at hr
+  rw [← C11.gen_p1_eq_spec] at hr
+  have hu : (Spec.Tx.bitsOfBytes lsf).length = 240 := by rw [bitsOfBytes_length, hl]
+  have hf := frame_fec lo hlo Gen.p1 p1_pos (Spec.Tx.bitsOfBytes lsf) frame 488 (by rw [hu]) (by rw [C11.kept_lsf]; omega)
+    geometries_noDouble.1 (by rw [hu]; decide) hr
+  rw [hu, pack_bitsOfBytes lsf hb] at hf
+  unfold step decodeLsf cleanCost
+  simp only [hf, C05.crcOf_is_m17_crc]
+  constructor
+  · intro h; simp only [h, if_true]
+  · intro h; simp only [h, if_false]
+
+/-- **packet frame** (206 bits = 25 bytes ‖ EOF ‖ 5-bit counter, zero padded to 26 bytes by `to_byte_array`): in either packet
+    mode the callback receives exactly the packed payload; the frame ends the packet iff its EOF bit is set -/
+theorem packet_roundtrip (lo : Int) (hlo : 1 ≤ lo) (σ : DState) (bits : List Bool) (hl : bits.length = 206)
+    (frame : List Int) (cb : Bool) (hr : SoftImage lo (Spec.Tx.packetFrameBits bits) frame)
+    (ty : FType) (hm : (σ.mode = .basicPacket ∧ ty = .basicPacket) ∨ (σ.mode = .fullPacket ∧ ty = .fullPacket)) :
+    step σ .packet frame cb =
+      (if (Bytes.pack bits).getD 25 0 ≥ 128 then
+        { state := { σ with mode := .lsf }, calls := [⟨ty, Bytes.pack bits, cleanCost Gen.p3 frame 420⟩],
+          result := if cb then .ok else .fail, cost := some (cleanCost Gen.p3 frame 420) }
+      else
+        { state := σ, calls := [⟨ty, Bytes.pack bits, cleanCost Gen.p3 frame 420⟩],
+          result := .packetIncomplete, cost := some (cleanCost Gen.p3 frame 420) }) := by
+  unfold Spec.Tx.packetFrameBits at hr
+  rw [← C11.gen_p3_eq_spec] at hr
+  have hf := frame_fec lo hlo Gen.p3 p3_pos bits frame 420 (by rw [hl]) (by rw [C11.kept_packet]; omega)
+    geometries_noDouble.2.2.1 (by rw [hl]; decide) hr
+  rw [hl] at hf
+  unfold step cleanCost
+  rcases hm with ⟨h1, h2⟩ | ⟨h1, h2⟩ <;> (simp only [h1, h2]; unfold decodePacket; simp only [hf])
+
+/-- **BERT frame** (197 bits): whatever the state, the callback receives exactly the packed 197 bits (25 bytes, last three
+    bits zero) and the decoder is in BERT mode afterwards -/
+theorem bert_roundtrip (lo : Int) (hlo : 1 ≤ lo) (σ : DState) (bits : List Bool) (hl : bits.length = 197)
+    (frame : List Int) (cb : Bool) (hr : SoftImage lo (Spec.Tx.bertFrameBits bits) frame) :
+    step σ .bert frame cb =
+      { state := { σ with mode := .bert }, calls := [⟨.bert, Bytes.pack bits, cleanCost Gen.p2 frame 402⟩],
+        result := .ok, cost := some (cleanCost Gen.p2 frame 402) } := by
+  unfold Spec.Tx.bertFrameBits at hr
+  rw [← C11.gen_p2_eq_spec] at hr
+  have hf := frame_fec lo hlo Gen.p2 p2_pos bits frame 402 (by rw [hl]) (by rw [C11.kept_bert.1]; omega)
+    geometries_noDouble.2.2.2 (by rw [hl]; decide) hr
+  rw [hl] at hf
+  unfold step decodeBert cleanCost
+  simp only [hf]
+
+/-! ## stream frames: LICH (96 bits, Golay) ‖ payload (272 bits, convolutional) -/
+
+theorem softImage_append (lo : Int) (a b : List Bool) (r : List Int) (h : SoftImage lo (a ++ b) r) :
+    SoftImage lo a (r.take a.length) ∧ SoftImage lo b (r.drop a.length) := by
+  obtain ⟨hl, hp⟩ := h
+  rw [List.length_append] at hl hp
+  refine ⟨⟨by rw [List.length_take]; omega, ?_⟩, ⟨by rw [List.length_drop]; omega, ?_⟩⟩
+  · intro i hi
+    have := hp i (by omega)
+    have e1 : (a ++ b).getD i false = a.getD i false := by
+      simp [List.getD_eq_getElem?_getD, List.getElem?_append_left hi]
+    have e2 : (r.take a.length).getD i 0 = r.getD i 0 := by
+      simp [List.getD_eq_getElem?_getD, List.getElem?_take, hi]
+    rw [e1] at this; rw [e2]; exact this
+  · intro i hi
+    have := hp (a.length + i) (by omega)
+    have e1 : (a ++ b).getD (a.length + i) false = b.getD i false := by
+      simp [List.getD_eq_getElem?_getD, List.getElem?_append_right]
+    have e2 : (r.drop a.length).getD i 0 = r.getD (a.length + i) 0 := by
+      simp [List.getD_eq_getElem?_getD, List.getElem?_drop]
+    rw [e1] at this; rw [e2]; exact this
+
+theorem wordBits_length (w n : Nat) : (Spec.Tx.wordBits w n).length = n := by unfold Spec.Tx.wordBits; simp
+
+theorem lichBits_length (lsf : List Nat) (n : Nat) : (Spec.Tx.lichBits lsf n).length = 96 := by
+  unfold Spec.Tx.lichBits
+  simp [List.range, List.range.loop, wordBits_length]
+
+/-- **stream frame in stream mode**: the callback receives exactly the 18 data bytes (frame number ‖ 16 payload bytes),
+    whatever LICH fragment rides along -/
+theorem stream_roundtrip (lo : Int) (hlo : 1 ≤ lo) (σ : DState) (hm : σ.mode = .stream) (lsf : List Nat) (lichN : Nat)
+    (data : List Nat) (hd : data.length = 18) (hb : Bytes.AllBytes data)
+    (frame : List Int) (cb : Bool) (hr : SoftImage lo (Spec.Tx.streamFrameBits lsf lichN data) frame) :
+    step σ .stream frame cb =
+      { state := σ, calls := [⟨.stream, data, roundDiv (slack Gen.p2 ((deinterleaveSoft (randSoft frame)).drop 96) 296) 7⟩],
+        result := .ok, cost := some (roundDiv (slack Gen.p2 ((deinterleaveSoft (randSoft frame)).drop 96) 296) 7) } := by
+  unfold Spec.Tx.streamFrameBits at hr
+  rw [← C11.gen_p2_eq_spec] at hr
+  have hu : (Spec.Tx.bitsOfBytes data).length = 144 := by rw [bitsOfBytes_length, hd]
+  have hpl := punct_length Gen.p2 p2_pos (Spec.Tx.bitsOfBytes data) 296 272 (by rw [hu]) (by rw [C11.kept_stream]; omega)
+  have hc := condition_image lo hlo _ frame (by rw [List.length_append, lichBits_length, hpl]) hr
+  have hs := (softImage_append lo _ _ _ hc).2
+  rw [lichBits_length] at hs
+  have hf := fec_clean lo hlo Gen.p2 p2_pos (Spec.Tx.bitsOfBytes data) _ 272 296 (by rw [hu]) (by rw [softImage_length hs, hpl])
+    geometries_noDouble.2.1 (by rw [hu]; decide) hs
+  rw [hu, pack_bitsOfBytes data hb] at hf
+  unfold step
+  simp only [hm]
+  unfold decodeStream
+  simp only [hf]
+
+/-! ### LICH: hard decisions on a clean image give the Golay code words back -/
+
+/-- value of a bit string, MSB first -/
+def bitsVal (bits : List Bool) : Nat := bits.foldl (fun v b => 2 * v + b.toNat) 0
+
+theorem foldl_val_acc (bits : List Bool) : ∀ (acc : Nat),
+    bits.foldl (fun v b => 2 * v + b.toNat) acc = acc * 2 ^ bits.length + bitsVal bits := by
+  unfold bitsVal
+  induction bits with
+  | nil => intro acc; simp
+  | cons b bits ih =>
+    intro acc
+    simp only [List.foldl_cons, List.length_cons]
+    rw [ih (2 * acc + b.toNat), ih (2 * 0 + b.toNat), Nat.pow_succ]
+    simp only [Nat.mul_zero, Nat.zero_add, Nat.add_mul]
+    rw [Nat.mul_comm 2 acc, Nat.mul_assoc, Nat.mul_comm 2 (2 ^ bits.length)]
+    omega
+
+theorem bitsVal_append (a b : List Bool) : bitsVal (a ++ b) = bitsVal a * 2 ^ b.length + bitsVal b := by
+  unfold bitsVal
+  rw [List.foldl_append, foldl_val_acc b]
+  rfl
+
+theorem softImage_cons (lo : Int) (b : Bool) (bits : List Bool) (x : Int) (xs : List Int) (h : SoftImage lo (b :: bits) (x :: xs)) :
+    Carries lo b x ∧ SoftImage lo bits xs := by
+  obtain ⟨hl, hp⟩ := h
+  refine ⟨by simpa using hp 0 (by simp), by simpa using hl, ?_⟩
+  intro i hi
+  have := hp (i + 1) (by simp; omega)
+  simpa only [List.getD_cons_succ] using this
+
+/-- `buffer[k] > 0` decisions on a clean soft image reproduce the bits -/
+theorem hardWord_image (lo : Int) (hlo : 1 ≤ lo) : ∀ (bits : List Bool) (xs : List Int) (acc : Nat), SoftImage lo bits xs →
+    xs.foldl (fun acc x => 2 * acc + (if x > 0 then 1 else 0)) acc = bits.foldl (fun v b => 2 * v + b.toNat) acc := by
+  intro bits
+  induction bits with
+  | nil => intro xs acc h; cases xs with
+    | nil => rfl
+    | cons _ _ => have := h.1; simp at this
+  | cons b bits ih =>
+    intro xs acc h
+    cases xs with
+    | nil => have := h.1; simp at this
+    | cons x xs =>
+      obtain ⟨hc, ht⟩ := softImage_cons lo b bits x xs h
+      simp only [List.foldl_cons]
+      have e : (if x > 0 then 1 else 0) = b.toNat := by
+        unfold Carries at hc
+        cases b <;> simp at hc ⊢ <;> omega
+      rw [e]
+      exact ih xs _ ht
+
+theorem wordBits_succ (w n : Nat) : Spec.Tx.wordBits w (n + 1) = Spec.Tx.wordBits (w / 2) n ++ [decide (w % 2 = 1)] := by
+  unfold Spec.Tx.wordBits
+  rw [List.range_succ, List.map_append]
+  congr 1
+  · apply List.map_congr_left
+    intro i hi
+    have hi' := List.mem_range.mp hi
+    have e : n + 1 - 1 - i = (n - 1 - i) + 1 := by omega
+    rw [e, Nat.shiftRight_succ_inside]
+  · simp
+
+theorem bitsVal_wordBits : ∀ (n w : Nat), bitsVal (Spec.Tx.wordBits w n) = w % 2 ^ n := by
+  intro n
+  induction n with
+  | zero => intro w; simp [Spec.Tx.wordBits, bitsVal, Nat.mod_one]
+  | succ n ih =>
+    intro w
+    rw [wordBits_succ, bitsVal_append, ih (w / 2)]
+    have : bitsVal [decide (w % 2 = 1)] = w % 2 := by
+      unfold bitsVal
+      rcases Nat.mod_two_eq_zero_or_one w with h | h <;> simp [h]
+    rw [this, Nat.pow_succ, Nat.mul_comm (2 ^ n) 2, Nat.mod_mul]
+    simp only [List.length_cons, List.length_nil, Nat.pow_one]
+    omega
+
+/-- the 24 hard decisions on a clean image of a 24-bit word are that word -/
+theorem hardWord_wordBits (lo : Int) (hlo : 1 ≤ lo) (w : Nat) (hw : w < 2 ^ 24) (xs : List Int)
+    (h : SoftImage lo (Spec.Tx.wordBits w 24) xs) : hardWord xs = w := by
+  unfold hardWord
+  rw [hardWord_image lo hlo _ xs 0 h]
+  have := bitsVal_wordBits 24 w
+  unfold bitsVal at this
+  rw [this, Nat.mod_eq_of_lt hw]
+
+/-! ### the four 12-bit data words of a LICH fragment -/
+
+def byteValOK : Bool := (List.range 256).all fun b =>
+  bitsVal (Spec.byteBits b) == b && bitsVal ((Spec.byteBits b).take 4) == b / 16 && bitsVal ((Spec.byteBits b).drop 4) == b % 16
+theorem byteVal_ok : byteValOK = true := by decide +kernel
+
+theorem byteVal (b : Nat) (hb : b < 256) :
+    bitsVal (Spec.byteBits b) = b ∧ bitsVal ((Spec.byteBits b).take 4) = b / 16 ∧ bitsVal ((Spec.byteBits b).drop 4) = b % 16 := by
+  have := M17.Bits.all_range byteVal_ok hb
+  simpa [and_assoc] using this
+
+theorem byteBits_explicit (b : Nat) : ∃ x7 x6 x5 x4 x3 x2 x1 x0, Spec.byteBits b = [x7, x6, x5, x4, x3, x2, x1, x0] :=
+  ⟨_, _, _, _, _, _, _, _, rfl⟩
+
+/-- the four 12-bit slices of six bytes, as byte / nibble concatenations -/
+theorem lich_slices (b0 b1 b2 b3 b4 b5 : Nat) :
+    let bits := Spec.Tx.bitsOfBytes [b0, b1, b2, b3, b4, b5]
+    (bits.drop (12 * 0)).take 12 = Spec.byteBits b0 ++ (Spec.byteBits b1).take 4 ∧
+    (bits.drop (12 * 1)).take 12 = (Spec.byteBits b1).drop 4 ++ Spec.byteBits b2 ∧
+    (bits.drop (12 * 2)).take 12 = Spec.byteBits b3 ++ (Spec.byteBits b4).take 4 ∧
+    (bits.drop (12 * 3)).take 12 = (Spec.byteBits b4).drop 4 ++ Spec.byteBits b5 := by
+  obtain ⟨a7, a6, a5, a4, a3, a2, a1, a0, ha⟩ := byteBits_explicit b0
+  obtain ⟨c7, c6, c5, c4, c3, c2, c1, c0, hc⟩ := byteBits_explicit b1
+  obtain ⟨d7, d6, d5, d4, d3, d2, d1, d0, hd⟩ := byteBits_explicit b2
+  obtain ⟨e7, e6, e5, e4, e3, e2, e1, e0, he⟩ := byteBits_explicit b3
+  obtain ⟨f7, f6, f5, f4, f3, f2, f1, f0, hf⟩ := byteBits_explicit b4
+  obtain ⟨g7, g6, g5, g4, g3, g2, g1, g0, hg⟩ := byteBits_explicit b5
+  simp only [Spec.Tx.bitsOfBytes, List.flatMap_cons, List.flatMap_nil, ha, hc, hd, he, hf, hg]
+  exact ⟨rfl, rfl, rfl, rfl⟩
+
+theorem lich_data_words (b0 b1 b2 b3 b4 b5 : Nat)
+    (l0 : b0 < 256) (l1 : b1 < 256) (l2 : b2 < 256) (l3 : b3 < 256) (l4 : b4 < 256) (l5 : b5 < 256) :
+    let bits := Spec.Tx.bitsOfBytes [b0, b1, b2, b3, b4, b5]
+    bitsVal ((bits.drop (12 * 0)).take 12) = b0 * 16 + b1 / 16 ∧
+    bitsVal ((bits.drop (12 * 1)).take 12) = (b1 % 16) * 256 + b2 ∧
+    bitsVal ((bits.drop (12 * 2)).take 12) = b3 * 16 + b4 / 16 ∧
+    bitsVal ((bits.drop (12 * 3)).take 12) = (b4 % 16) * 256 + b5 := by
+  obtain ⟨s0, s1, s2, s3⟩ := lich_slices b0 b1 b2 b3 b4 b5
+  simp only at s0 s1 s2 s3 ⊢
+  rw [s0, s1, s2, s3]
+  simp only [bitsVal_append, List.length_take, List.length_drop, byteBits_length,
+    (byteVal b0 l0).1, (byteVal b1 l1).2.1, (byteVal b1 l1).2.2, (byteVal b2 l2).1,
+    (byteVal b3 l3).1, (byteVal b4 l4).2.1, (byteVal b4 l4).2.2, (byteVal b5 l5).1,
+    (by decide : min 4 8 = 4), Nat.reducePow, Nat.reduceSub]
+  exact ⟨trivial, trivial, trivial, trivial⟩
+
+theorem take_drop_take (l : List Int) (k m n : Nat) (h : k + m ≤ n) : ((l.take n).drop k).take m = (l.drop k).take m := by
+  rw [List.drop_take, List.take_take, Nat.min_eq_left (by omega)]
+
+theorem list6 (l : List Nat) (h : l.length = 6) :
+    l = [l.getD 0 0, l.getD 1 0, l.getD 2 0, l.getD 3 0, l.getD 4 0, l.getD 5 0] := by
+  match l, h with
+  | [_, _, _, _, _, _], _ => rfl
+
+/-- a clean 96-value image of four 24-bit words: the `k`-th group of 24 hard decisions is the `k`-th word -/
+theorem four_words (lo : Int) (hlo : 1 ≤ lo) (w0 w1 w2 w3 : Nat) (h0 : w0 < 2 ^ 24) (h1 : w1 < 2 ^ 24) (h2 : w2 < 2 ^ 24) (h3 : w3 < 2 ^ 24)
+    (buf : List Int)
+    (h : SoftImage lo (Spec.Tx.wordBits w0 24 ++ (Spec.Tx.wordBits w1 24 ++ (Spec.Tx.wordBits w2 24 ++ Spec.Tx.wordBits w3 24))) buf) :
+    hardWord ((buf.drop (24 * 0)).take 24) = w0 ∧ hardWord ((buf.drop (24 * 1)).take 24) = w1 ∧
+    hardWord ((buf.drop (24 * 2)).take 24) = w2 ∧ hardWord ((buf.drop (24 * 3)).take 24) = w3 := by
+  obtain ⟨a0, r0⟩ := softImage_append lo _ _ _ h
+  obtain ⟨a1, r1⟩ := softImage_append lo _ _ _ r0
+  obtain ⟨a2, r2⟩ := softImage_append lo _ _ _ r1
+  simp only [wordBits_length] at a0 r0 a1 r1 a2 r2
+  have l3 : (List.drop 24 (List.drop 24 (List.drop 24 buf))).length = 24 := by rw [softImage_length r2, wordBits_length]
+  refine ⟨hardWord_wordBits lo hlo w0 h0 _ (by simpa using a0), hardWord_wordBits lo hlo w1 h1 _ (by simpa using a1),
+    hardWord_wordBits lo hlo w2 h2 _ (by simpa [List.drop_drop] using a2), ?_⟩
+  have := hardWord_wordBits lo hlo w3 h3 _ r2
+  rw [← List.take_of_length_le (Nat.le_of_eq l3)] at this
+  simpa [List.drop_drop] using this
+
+/-- **LICH of a clean stream frame**: `unpack_lich` returns exactly the six LICH bytes the specification puts into the frame —
+    five bytes of the LSF at slot `lichN mod 6` and the fragment counter `lichN mod 8` in the top three bits of the sixth -/
+theorem lich_roundtrip (lo : Int) (hlo : 1 ≤ lo) (lsf : List Nat) (hl : lsf.length = 30) (hb : Bytes.AllBytes lsf) (lichN : Nat)
+    (data : List Nat) (hd : data.length = 18)
+    (frame : List Int) (hr : SoftImage lo (Spec.Tx.streamFrameBits lsf lichN data) frame) :
+    unpackLich (deinterleaveSoft (randSoft frame)) = some ((lsf.drop (5 * (lichN % 6))).take 5 ++ [(lichN % 8) * 32]) := by
+  unfold Spec.Tx.streamFrameBits at hr
+  rw [← C11.gen_p2_eq_spec] at hr
+  have hu : (Spec.Tx.bitsOfBytes data).length = 144 := by rw [bitsOfBytes_length, hd]
+  have hpl := punct_length Gen.p2 p2_pos (Spec.Tx.bitsOfBytes data) 296 272 (by rw [hu]) (by rw [C11.kept_stream]; omega)
+  have hc := condition_image lo hlo _ frame (by rw [List.length_append, lichBits_length, hpl]) hr
+  have hs := (softImage_append lo _ _ _ hc).1
+  rw [lichBits_length] at hs
+  generalize deinterleaveSoft (randSoft frame) = buf at hs ⊢
+  -- the six LICH bytes
+  generalize hseg : (lsf.drop (5 * (lichN % 6))).take 5 ++ [(lichN % 8) * 32] = seg at hs ⊢
+  have hsl : seg.length = 6 := by
+    rw [← hseg, List.length_append, List.length_take, List.length_drop, hl]
+    have := Nat.mod_lt lichN (by decide : 0 < 6)
+    simp only [List.length_cons, List.length_nil]; omega
+  have hsb : Bytes.AllBytes seg := by
+    intro b hbm
+    rw [← hseg] at hbm
+    rcases List.mem_append.mp hbm with h | h
+    · exact hb b (List.mem_of_mem_drop (List.mem_of_mem_take h))
+    · have := Nat.mod_lt lichN (by decide : 0 < 8)
+      simp only [List.mem_cons, List.not_mem_nil, or_false] at h; omega
+  have e6 := list6 seg hsl
+  generalize seg.getD 0 0 = b0, seg.getD 1 0 = b1, seg.getD 2 0 = b2, seg.getD 3 0 = b3, seg.getD 4 0 = b4, seg.getD 5 0 = b5 at e6
+  subst e6
+  have l0 := hsb b0 (by simp); have l1 := hsb b1 (by simp); have l2 := hsb b2 (by simp)
+  have l3 := hsb b3 (by simp); have l4 := hsb b4 (by simp); have l5 := hsb b5 (by simp)
+  obtain ⟨d0, d1, d2, d3⟩ := lich_data_words b0 b1 b2 b3 b4 b5 l0 l1 l2 l3 l4 l5
+  unfold bitsVal at d0 d1 d2 d3
+  have hlb : Spec.Tx.lichBits lsf lichN =
+      Spec.Tx.wordBits (Spec.golay24 (b0 * 16 + b1 / 16)) 24 ++ (Spec.Tx.wordBits (Spec.golay24 ((b1 % 16) * 256 + b2)) 24 ++
+      (Spec.Tx.wordBits (Spec.golay24 (b3 * 16 + b4 / 16)) 24 ++ Spec.Tx.wordBits (Spec.golay24 ((b4 % 16) * 256 + b5)) 24)) := by
+    unfold Spec.Tx.lichBits
+    simp only [hseg, List.range, List.range.loop, List.flatMap_cons, List.flatMap_nil, List.append_nil, d0, d1, d2, d3]
+  rw [hlb] at hs
+  have g0 := C04.encode24_eq_spec (b0 * 16 + b1 / 16) (by omega)
+  have g1 := C04.encode24_eq_spec ((b1 % 16) * 256 + b2) (by omega)
+  have g2 := C04.encode24_eq_spec (b3 * 16 + b4 / 16) (by omega)
+  have g3 := C04.encode24_eq_spec ((b4 % 16) * 256 + b5) (by omega)
+  rw [← g0, ← g1, ← g2, ← g3] at hs
+  obtain ⟨w0, w1, w2, w3⟩ := four_words lo hlo _ _ _ _
+    (C04.encode_systematic (b0 * 16 + b1 / 16) (by omega)).2 (C04.encode_systematic ((b1 % 16) * 256 + b2) (by omega)).2
+    (C04.encode_systematic (b3 * 16 + b4 / 16) (by omega)).2 (C04.encode_systematic ((b4 % 16) * 256 + b5) (by omega)).2 (buf.take 96) hs
+  rw [take_drop_take buf _ 24 96 (by omega)] at w0 w1 w2 w3
+  exact C05.unpack_lich_correct buf b0 b1 b2 b3 b4 b5 0 0 0 0 l0 l1 l2 l3 l4 l5
+    ⟨⟨by decide, by decide⟩, ⟨by decide, by decide⟩, ⟨by decide, by decide⟩, ⟨by decide, by decide⟩⟩
+    (by rw [w0, Nat.xor_zero]) (by rw [w1, Nat.xor_zero]) (by rw [w2, Nat.xor_zero]) (by rw [w3, Nat.xor_zero])
+
+/-- **stream frame while waiting for link setup** (late entry): the first callback is the LICH fragment, bit-exact, with cost 0;
+    everything the decoder does next (collect, report the reassembled LSF, enter stream mode) is governed by `M17.C05` -/
+theorem lich_callback (lo : Int) (hlo : 1 ≤ lo) (σ : DState) (hm : σ.mode = .lsf) (lsf : List Nat) (hl : lsf.length = 30)
+    (hb : Bytes.AllBytes lsf) (lichN : Nat) (data : List Nat) (hd : data.length = 18)
+    (frame : List Int) (cb : Bool) (hr : SoftImage lo (Spec.Tx.streamFrameBits lsf lichN data) frame) :
+    (step σ .stream frame cb).calls.head? =
+      some ⟨.lich, (lsf.drop (5 * (lichN % 6))).take 5 ++ [(lichN % 8) * 32], 0⟩ := by
+  have hu := lich_roundtrip lo hlo lsf hl hb lichN data hd frame hr
+  unfold step
+  simp only [hm]
+  unfold decodeLich
+  rw [hu]
+  simp only
+  split
+  · rfl
+  · split
+    · rfl
+    · split <;> rfl
+
+/-! ## full confidence ⇒ reported cost 0 -/
+
+theorem cleanCost_zero (p : List Nat) (bits : List Bool) (frame : List Int) (n : Nat) (h : bits.length = 368)
+    (hr : SoftImage 7 (Spec.Tx.rnd (Spec.Tx.ileave bits)) frame) : cleanCost p frame n = 0 := by
+  unfold cleanCost
+  rw [slack_zero_of_full p bits _ n (condition_image 7 (by decide) bits frame h hr)]
+  rfl
+
+/-- link setup frame at full confidence (every soft value ±7): cost 0 -/
+theorem lsf_cost_zero (lsf : List Nat) (hl : lsf.length = 30) (frame : List Int)
+    (hr : SoftImage 7 (Spec.Tx.lsfFrameBits lsf) frame) : cleanCost Gen.p1 frame 488 = 0 := by
+  unfold Spec.Tx.lsfFrameBits at hr
+  rw [← C11.gen_p1_eq_spec] at hr
+  have hu : (Spec.Tx.bitsOfBytes lsf).length = 240 := by rw [bitsOfBytes_length, hl]
+  exact cleanCost_zero Gen.p1 _ frame 488
+    (punct_length Gen.p1 p1_pos _ 488 368 (by rw [hu]) (by rw [C11.kept_lsf]; omega)) hr
+
+/-- packet frame at full confidence: cost 0 -/
+theorem packet_cost_zero (bits : List Bool) (hl : bits.length = 206) (frame : List Int)
+    (hr : SoftImage 7 (Spec.Tx.packetFrameBits bits) frame) : cleanCost Gen.p3 frame 420 = 0 := by
+  unfold Spec.Tx.packetFrameBits at hr
+  rw [← C11.gen_p3_eq_spec] at hr
+  exact cleanCost_zero Gen.p3 _ frame 420
+    (punct_length Gen.p3 p3_pos _ 420 368 (by rw [hl]) (by rw [C11.kept_packet]; omega)) hr
+
+/-- stream frame at full confidence: cost 0 -/
+theorem stream_cost_zero (lsf : List Nat) (lichN : Nat) (data : List Nat) (hd : data.length = 18) (frame : List Int)
+    (hr : SoftImage 7 (Spec.Tx.streamFrameBits lsf lichN data) frame) :
+    roundDiv (slack Gen.p2 ((deinterleaveSoft (randSoft frame)).drop 96) 296) 7 = 0 := by
+  unfold Spec.Tx.streamFrameBits at hr
+  rw [← C11.gen_p2_eq_spec] at hr
+  have hu : (Spec.Tx.bitsOfBytes data).length = 144 := by rw [bitsOfBytes_length, hd]
+  have hpl := punct_length Gen.p2 p2_pos (Spec.Tx.bitsOfBytes data) 296 272 (by rw [hu]) (by rw [C11.kept_stream]; omega)
+  have hc := condition_image 7 (by decide) _ frame (by rw [List.length_append, lichBits_length, hpl]) hr
+  have hs := (softImage_append 7 _ _ _ hc).2
+  rw [lichBits_length] at hs
+  rw [slack_zero_of_full Gen.p2 _ _ 296 hs]
+  rfl
+
+/-! ## non-vacuity: soft images exist for every bit sequence and every magnitude -/
+
+/-- the soft image at uniform magnitude `m` -/
+def softAt (m : Int) (bits : List Bool) : List Int := bits.map fun b => if b then m else -m
+
+theorem softAt_image (m : Int) (_h1 : 1 ≤ m) (h7 : m ≤ 7) (bits : List Bool) : SoftImage m bits (softAt m bits) := by
+  refine ⟨by simp [softAt], ?_⟩
+  intro i hi
+  have : (softAt m bits).getD i 0 = if bits.getD i false then m else -m := by
+    simp [softAt, List.getD_eq_getElem?_getD, hi]
+  rw [this]
+  unfold Carries
+  cases bits.getD i false <;> simp <;> omega
+
+/-- monotone in the lower bound: an image at magnitudes `lo`..7 is an image at magnitudes 1..7 -/
+theorem softImage_weaken (lo : Int) (hlo : 1 ≤ lo) (bits : List Bool) (r : List Int) (h : SoftImage lo bits r) : SoftImage 1 bits r := by
+  refine ⟨h.1, fun i hi => ?_⟩
+  have := h.2 i hi
+  unfold Carries at this ⊢
+  split at this <;> simp_all <;> omega
+
+example : SoftImage 7 [true, false] [7, -7] := softAt_image 7 (by decide) (by decide) [true, false]
+example : SoftImage 1 [true, false, true] [3, -7, 1] := by
+  refine ⟨rfl, fun i hi => ?_⟩
+  have : i = 0 ∨ i = 1 ∨ i = 2 := by simp at hi; omega
+  rcases this with rfl | rfl | rfl <;> simp [Carries]
 
 end M17.C01F
